@@ -269,9 +269,12 @@ func (f *Function) Stub() string {
 	return "func " + f.Name + f.Signature.String()
 }
 
-// FrameBytes returns the size of the stack frame in bytes.
+// FrameBytes returns the size of the stack frame in bytes. This is the size of
+// the local allocations rounded up to a multiple of the pointer size, since the
+// assembler rejects any other frame size ("unaligned stack size").
 func (f *Function) FrameBytes() int {
-	return f.LocalSize
+	align := int(gotypes.PointerSize)
+	return (f.LocalSize + align - 1) / align * align
 }
 
 // ArgumentBytes returns the size of the arguments in bytes.
